@@ -248,6 +248,13 @@ func selfTest(prop, repo, verif string) ([]variantResult, int) {
 			vs = append(vs, v)
 		}
 	}
+	// behaviour-preserving refactorings (preserving/<id>/patch.diff): no rule of any property may fire on them
+	pres, _ := filepath.Glob(filepath.Join(verif, "preserving", "*", "patch.diff"))
+	sort.Strings(pres)
+	for _, p := range pres {
+		rel, _ := filepath.Rel(verif, p)
+		vs = append(vs, variant{Name: "preserving " + filepath.Base(filepath.Dir(p)), Prop: prop, Rule: "none", Patch: rel, Suite: "pass", Origin: "preserving"})
+	}
 	res := runVariants(prop, repo, verif, vs)
 	code := 0
 	for _, r := range res {
